@@ -264,6 +264,32 @@ func (bs *blockState) applyContractX(spec *FuncSpec, key string, args []Val, ins
 			post.Vars[spec.Results[0].Name] = res
 		}
 	}
+	if spec.Async != "" {
+		// ownership of captured variables passes to a closure that runs later or concurrently: the creating
+		// function must not assign a captured variable after handing the closure over (a later iteration of
+		// a loop counts, unless the variable is declared anew in each iteration)
+		for i, p := range spec.Params {
+			if p.Name != spec.Async {
+				continue
+			}
+			mc, ok := e.closureOf[args[i].C[0]]
+			if !ok {
+				continue
+			}
+			for j, b := range mc.Bindings {
+				a, isAlloc := b.(*ssa.Alloc)
+				if !isAlloc {
+					continue
+				}
+				okTerm := "true"
+				if st := storeReachableAfter(ins, a); st != nil {
+					okTerm = "false"
+				}
+				bs.assertG(site+".capture."+mc.Fn.(*ssa.Function).FreeVars[j].Name(), "capture", okTerm,
+					"captured variable "+mc.Fn.(*ssa.Function).FreeVars[j].Name()+" is not assigned after the closure is handed over", ins)
+			}
+		}
+	}
 	if spec.Invokes != "" {
 		// the callee may invoke the closure argument any number of times: the closure's `preserves`
 		// invariants hold before, everything the closure may modify is forgotten, the invariants hold after
@@ -753,4 +779,57 @@ func (bs *blockState) atomicCall(x *ssa.Call, f *ssa.Function) {
 	default:
 		unsupp("sync/atomic.%s", name)
 	}
+}
+
+
+// storeReachableAfter finds a store to the cell allocated by a that can execute after instruction from
+// without the cell being allocated anew in between.
+func storeReachableAfter(from ssa.Instruction, a *ssa.Alloc) ssa.Instruction {
+	isStoreTo := func(ins ssa.Instruction) bool {
+		st, ok := ins.(*ssa.Store)
+		return ok && rootAlloc(st.Addr) == a
+	}
+	blk := from.Block()
+	// rest of the current block
+	idx := -1
+	for i, ins := range blk.Instrs {
+		if ins == from {
+			idx = i
+		}
+	}
+	scan := func(instrs []ssa.Instruction) (ssa.Instruction, bool) { // (store found, stop)
+		for _, ins := range instrs {
+			if ins == ssa.Instruction(a) {
+				return nil, true
+			}
+			if isStoreTo(ins) {
+				return ins, true
+			}
+		}
+		return nil, false
+	}
+	if st, stop := scan(blk.Instrs[idx+1:]); st != nil {
+		return st
+	} else if stop {
+		return nil
+	}
+	seen := map[*ssa.BasicBlock]bool{}
+	work := append([]*ssa.BasicBlock{}, blk.Succs...)
+	for len(work) > 0 {
+		b := work[len(work)-1]
+		work = work[:len(work)-1]
+		if seen[b] {
+			continue
+		}
+		seen[b] = true
+		st, stop := scan(b.Instrs)
+		if st != nil {
+			return st
+		}
+		if stop {
+			continue
+		}
+		work = append(work, b.Succs...)
+	}
+	return nil
 }
